@@ -15,8 +15,16 @@ def generate(g, i):
     r = g.r
     if r.random() < 0.2:
         spec = g.multi()
-        for s in spec["sections"]:
-            s["body"]["col_rel_width"] = [rel(r) for _ in s["df"]["cols"]]
+        if r.random() < 0.35:
+            # one RTFBody object, in the broadcast form "all columns equal", used for every section
+            w = rel(r)
+            for s in spec["sections"]:
+                s["body"] = {"col_rel_width": [w]}
+            spec["_share_body"] = True
+            spec.pop("headers", None)
+        else:
+            for s in spec["sections"]:
+                s["body"]["col_rel_width"] = [rel(r) for _ in s["df"]["cols"]]
         spec["page"]["col_width"] = round(r.uniform(2, 12), 2)
         return spec
     strategy = r.choice(["plain", "page_by", "page_by", "subline", "subline+page_by"])
@@ -35,7 +43,9 @@ def generate(g, i):
                 del spec["body"][k]
         ncol += extra
     k = r.random()
-    if k < 0.6:
+    if k < 0.15:
+        spec["body"]["col_rel_width"] = [rel(r)]          # broadcast form: one value for all columns
+    elif k < 0.6:
         spec["body"]["col_rel_width"] = [rel(r) for _ in range(ncol)]
     else:
         spec["body"].pop("col_rel_width", None)
@@ -68,7 +78,7 @@ _orig_build = rt.build
 
 
 def _build(spec):
-    return _orig_build({k: v for k, v in spec.items() if not k.startswith("_") or k.startswith("_prior")})
+    return _orig_build({k: v for k, v in spec.items() if not k.startswith("_") or k.startswith("_prior") or k == "_share_body"})
 
 
 rt.build = _build
